@@ -122,8 +122,11 @@ def relation(spec, model, op):
         if n == "add_nodes":
             return "metadata" if op[2] is not None else "plain"
         if n == "add_edges":
-            keys = [K.key(r, op[2][i] if op[2] is not None else None) for i, r in enumerate(op[1])]
+            m = min(len(op[1]), len(op[2])) if op[2] is not None else len(op[1])
+            keys = [K.key(r, op[2][i] if op[2] is not None else None) for i, r in enumerate(op[1][:m])]
             rel = "weights" if op[3] is not None else "plain"
+            if (op[2] is not None and len(op[2]) != len(op[1])) or (op[4] is not None and len(op[4]) != len(op[1])):
+                rel += ",length-mismatch"
             if op[3] is not None and not model.weighted:
                 rel += ",unweighted"
             if len(set(keys)) < len(keys):
